@@ -34,7 +34,7 @@ def wlcfg(rng, mv=None):
     wl = {"max_volume": mv or rng.choice(["950", "200", "1000", "12.5"]), "max_int": False, "auto_split": True, "diti_mode": rng.random() < 0.25}
     r = rng.random()
     if r < 0.2 and "/" not in wl["max_volume"]:
-        wl["max_np"] = rng.choice(["float32", "float64", "0d"])
+        wl["max_np"] = rng.choice(["float64", "0d", "0d"] + (["int64"] if "." not in wl["max_volume"] else []))
     elif r < 0.3:
         wl["diti_repr"] = rng.choice(["int", "npbool"])
     return wl
